@@ -161,6 +161,16 @@ class RecipSym:
         return f"RecipSym(1/{self.mu.t})"
 
 
+# torch.fft.fftfreq(n, d)[i] as a term: a fixed (uninterpreted) function of (n, d, i) - shared with the contracts, which state
+# results of grid functions in terms of it
+FFTFREQ = z3.Function("fftfreq", z3.IntSort(), z3.RealSort(), z3.IntSort(), z3.RealSort())
+
+
+def fft_term(n, d, i):
+    """the term fftfreq(n, d)[i] (the one m_fftfreq below produces for symbolic n or d)"""
+    return FFTFREQ(lift(n), reals._real(d), i)
+
+
 def install(reg):
     M = reg.models
 
@@ -321,15 +331,12 @@ def install(reg):
 
     M[math.atan2] = m_math_atan2
 
-    FFTFREQ = z3.Function("fftfreq", z3.IntSort(), z3.RealSort(), z3.IntSort(), z3.RealSort())
-
     def m_fftfreq(interp, n, d=1.0, **kw):
         """torch.fft.fftfreq(n, d): a real tensor of length n whose i-th sample is a fixed function of (n, d, i).
         The sample values are left abstract (uninterpreted): every C12 statement holds for arbitrary frequency grids."""
         if not contains_sym((n, d)):
             return interp.native(torch.fft.fftfreq, n, d, **kw)
-        nt, dt = lift(n), reals._real(d)
-        a = SymArr((n,), lambda i: Sym(FFTFREQ(nt, dt, i)), "real")
+        a = SymArr((n,), lambda i: Sym(fft_term(n, d, i)), "real")
         a.as_type = torch.Tensor
         return a
 
